@@ -89,12 +89,30 @@ def local_times(rng, table, n_uniform, per_transition):
         # exactly at the switch, in both wall clocks
         out.append((t[0] + t[1], True))
         out.append((t[0] + t[1] - 1, True))
+    # an offset that was in force for less than a month and a half (daylight saving suspended for Ramadan and resumed,
+    # started and cancelled within weeks, war-time changes): instants well inside such a period, far from either switch
+    short = [(a, b) for a, b in zip(table["transitions"], table["transitions"][1:]) if lo < a[0] and b[0] < hi and 0 < b[0] - a[0] < 45 * 86400]
+    for a, b in (rng.sample(short, min(len(short), 40)) if short else []):
+        for k in (1, 2, 3):
+            out.append((a[0] + a[1] + (b[0] - a[0]) * k // 4, True))
+        out.append((a[0] + a[1] + rng.randint(3 * 3600, max(3 * 3600 + 1, b[0] - a[0] - 3 * 3600)), True))
     # a logger's record running through a switch: regular sub-hourly samples for two hours either side
     for t in (rng.sample(trs, min(len(trs), 6)) if trs else []):
         step = rng.choice([300, 600, 900, 1200])
         prev = max([x for x in table["transitions"] if x[0] < t[0]], default=[0, table["initial"]])[1]
         start = ((t[0] + min(prev, t[1]) - 7200) // step) * step
         out += [(start + k * step, True) for k in range((4 * 3600 + abs(prev - t[1])) // step + 1)]
+    return out
+
+
+def zones_with_short_lived_offsets():
+    """every zone of the installed database in which some offset was in force for less than 45 days"""
+    import pytz
+    out = []
+    for name in pytz.all_timezones:
+        tt = getattr(pytz.timezone(name), "_utc_transition_times", None) or []
+        if any(a.year >= 1900 and 0 < (b - a).total_seconds() < 45 * 86400 for a, b in zip(tt, tt[1:])):
+            out.append(name)
     return out
 
 
@@ -358,15 +376,17 @@ def cli_zone_stream(ctx, zones):
 def run(ctx):
     from .c10 import other_process_zone
     other_process_zone(ctx, 3 if ctx.tier == "quick" else 40)
+    shortz = zones_with_short_lived_offsets()
+    ctx.count("zones_with_an_offset_in_force_for_less_than_45_days", len(shortz))
     if ctx.tier == "quick":
-        timestamp_stream(ctx, ZONES, 12, 2)
+        timestamp_stream(ctx, ZONES + [z for z in ctx.rng.sample(shortz, min(14, len(shortz))) if z not in ZONES], 12, 2)
         text_stream(ctx)
         refusal_stream(ctx, 150)
         broken_row_stream(ctx, 40)
         cli_zone_stream(ctx, ctx.rng.sample(ZONES, 12))
     else:
         import pytz
-        allz = sorted(set(ZONES) | set(pytz.common_timezones))
+        allz = sorted(set(ZONES) | set(pytz.common_timezones) | set(shortz))
         timestamp_stream(ctx, allz, 40, 6)
         text_stream(ctx)
         refusal_stream(ctx, 3000)
